@@ -302,6 +302,23 @@ def run(ctx):
                     exp[n][a:b] += 1
                 ok = all(same(pu[n], exp[n], True) for n in names)
                 ctx.check("pileup", ok, "pileup/coverage", "genome-wide pileup differs from coverage", dict(wit, intervals=ivs, got={n: np.asarray(pu[n]).tolist() for n in names}), (key, tuple(ivs)))
+                if len(names) >= 2:
+                    # the interval table as another genome object holds it (chromosome column coded in THAT genome's order) handed to a genome with the same contigs in another order:
+                    # the coverage of the records, or a refusal
+                    coded = genome.get_intervals(t).get_data()
+                    names_b = list(reversed(names))
+                    genome_b = bnp.Genome.from_dict({n: sizes[n] for n in names_b})
+                    try:
+                        pub = genome_b.get_intervals(coded).get_pileup().to_dict()
+                    except Exception as e:
+                        if not originates_in_library(e) and type(e).__name__ not in ("GenomeError", "EncodingException", "EncodingError"):
+                            raise
+                        pub = None
+                        ctx.count("table_coded_by_another_genome_refused")
+                    if pub is not None:
+                        okb = all(n in pub and same(pub[n], exp[n], True) for n in names)
+                        ctx.check("pileup", okb, "pileup/coverage:table-coded-by-a-genome-with-another-contig-order", "pileup in a genome ordered %r of a table coded by a genome ordered %r differs from the coverage of its records" % (names_b, names),
+                                  dict(wit, intervals=ivs, got={n: np.asarray(pub[n]).tolist() for n in names if n in pub}), (key, tuple(ivs), "coded"))
         # expression trees
         for _ in range(case["n_expr"]):
             tree, typ = gen_expr(r, r.randint(0, depth), kinds)
@@ -458,8 +475,22 @@ def run(ctx):
         narrow = any(np.dtype(dts[int(i)]).itemsize < 8 and kinds[int(i)] != "bool" for i in used)
         ctx.check("expression:streamed", inside and bad is None, "expression/value:streamed-arrays%s" % (":values-held-in-a-narrow-type" if narrow else ""),
                   "%s over streamed arrays on %s: got %r, NumPy on the dense arrays %r" % (txt, bad, back[bad].tolist() if bad else None, np.asarray(exp[bad]).tolist() if bad else None), dict(wit, chrom=bad), (tuple(sizes.items()), repr(recs_all), txt))
-        # reductions over fresh streams of the same records
         cat = np.concatenate([np.asarray(exp[n]) for n in names])
+        # the SAME lazy array computed again and again (its streams are read once): every further computation refuses, or gives the value of the records
+        for again_ in range(3):
+            try:
+                with np.errstate(all="ignore"):
+                    s_again = bnp.compute(node.sum())
+            except Exception as e:
+                if not originates_in_library(e) and not isinstance(e, (AssertionError, StopIteration)):
+                    raise
+                ctx.count("recomputation_of_a_consumed_array_refused")
+                break
+            want_ = float(cat.sum(dtype=(np.float64 if cat.dtype.kind == "f" else None)))
+            if not ctx.check("sum:streamed", abs(float(s_again) - want_) <= 1e-9 * max(1.0, float(np.abs(cat.astype(np.float64)).sum())), "np.sum:streamed-arrays:computed-again-on-the-same-lazy-array",
+                             "computation %d of sum(%s) on the same lazy array gave %r, the records give %r" % (again_ + 2, txt, float(s_again), want_), dict(wit, nth=again_ + 2), (tuple(sizes.items()), repr(recs_all), txt, "again", again_)):
+                break
+        # reductions over fresh streams of the same records
         try:
             with np.errstate(all="ignore"):
                 leaves = {int(i): make_leaf(int(i)) for i in used}
